@@ -365,7 +365,11 @@ CASES = {"history": history.case, "planet": case_planet, "pluto": case_pluto, "m
 def gen_minor(rng):
     q = 10.0 ** rng.uniform(-1, math.log10(30.0))
     r = rng.random()
-    if r < 0.45:
+    if r < 0.07:
+        # nearly circular: the equation of the centre is 2 e sin M, first
+        # order in e, so e = 1e-5 still moves the body by 0.001 degree
+        e = 10.0 ** rng.uniform(-12, -2)
+    elif r < 0.45:
         e = rng.uniform(0.0, 0.98)
     elif r < 0.55:
         e = rng.choice((0.98 - 1e-9, 0.98, 0.98 + 1e-9, 0.0, 0.5))
